@@ -168,6 +168,9 @@ pub struct Cfg {
     /// poll a pacing-blocked connection every this many microseconds (0: sleep until its timer)
     #[serde(default)]
     pub eager_poll_us: u64,
+    /// how many such polls a run may spend
+    #[serde(default)]
+    pub eager_polls: u64,
     #[serde(default)]
     pub client_tp: Vec<Value>,
     #[serde(default)]
@@ -576,6 +579,7 @@ pub struct World {
     pub cur_rx_uid: i64,
     pub dcid_ctr: Arc<AtomicU64>,
     pub eager_left: u64,
+    pub quiet_polls: bool,
     pub cur_tx_uid: i64,
     pub next_uid: i64,
     /// encoded transport parameters each side presented (tapped at the crypto provider)
@@ -815,7 +819,8 @@ impl World {
             cur_rx_id: -1,
             cur_rx_uid: -1,
             dcid_ctr: Arc::new(AtomicU64::new(0)),
-            eager_left: 30_000,
+            eager_left: cfg.eager_polls,
+            quiet_polls: false,
             cur_tx_uid: -1,
             next_uid: 0,
             tp_server,
@@ -1228,7 +1233,7 @@ impl World {
         });
         let Some(Some(t)) = r else {
             // nothing to send; a poll may still have armed a timer (pacing): record that
-            if r.is_some() {
+            if r.is_some() && !self.quiet_polls {
                 let post = self.probe(n, c);
                 if post["tm"] != pre["tm"] {
                     let tnow = self.now_us;
@@ -1745,7 +1750,9 @@ impl World {
                     self.eager_left -= 1;
                     self.now_us = at;
                     self.clock.store(self.now_us, Ordering::Relaxed);
+                    self.quiet_polls = true;
                     self.poll_transmit_once(n, c);
+                    self.quiet_polls = false;
                     return true;
                 }
             }
